@@ -360,6 +360,15 @@ void run_C03(void) {
           if ((ctr % 4) == 0) module_case(N, as, ds, rs, (ctr + 2) % 4, 0, 1, 0);
         }
   }
+  // many limbs
+  for (size_t ni = 0; ni < 6; ni++) {
+    static const uint64_t BIGS[][3] = {{9, 13, 16}, {16, 8, 12}, {12, 12, 12}, {17, 17, 3}, {5, 33, 32}};
+    for (size_t q = 0; q < ARRAY_LEN(BIGS); q++) {
+      module_case(ALL_N[ni], BIGS[q][0], BIGS[q][1], BIGS[q][2], (unsigned)q % 4, 0, 0, 1);
+      module_case(ALL_N[ni], BIGS[q][0], BIGS[q][1], BIGS[q][2], (unsigned)(q + 1) % 4, 1, 0, 1);
+      module_case(ALL_N[ni], BIGS[q][0], BIGS[q][1], BIGS[q][2], (unsigned)(q + 2) % 4, 0, 1, 1);
+    }
+  }
   for (size_t ni = 0; ni <= N_ALL_N; ni++) {
     const uint64_t N = ni < N_ALL_N ? ALL_N[ni] : 1;
     for (int pat = 0; pat < 8; pat++)
